@@ -98,7 +98,7 @@ func aliveScenarios(tier string) []*simScenario {
 	}
 	out := []*simScenario{scenStress(dev)}
 	for _, b := range []*simScenario{
-		scenSnap(snapSeeds[1], dev, false, true, 2),
+		scenSnap(snapSeeds[snapSeedIndex("lagging")], dev, false, true, 2),
 		scenMember(memberSeeds[0], dev, 2, 0, true, nil, 1),
 		scenTransfer(xferSeeds[0], dev, true),
 		scenClient("leader", []string{"T:1", "run"}, []string{"update", "read", "barrier", "dirty", "batch2"}, []string{"transfer:2", "demote:1"}, dev, false, true, 2, 2),
@@ -119,11 +119,11 @@ func infoScenarios(tier string) []*simScenario {
 	}
 	var out []*simScenario
 	for _, b := range []*simScenario{
-		scenRepl(replSeeds[3], dev, false, 1, 1, 4),
-		scenRepl(replSeeds[2], dev+1, false, 1, 1, 4),
-		scenSnap(snapSeeds[1], dev+1, false, true, 2),
-		scenSnap(snapSeeds[1], dev, true, false, 1),
-		scenSnap(snapSeeds[0], dev+1, false, true, 2),
+		scenRepl(replSeedByName("divergent"), dev, false, 1, 1, 4),
+		scenRepl(replSeedByName("lagging"), dev+1, false, 1, 1, 4),
+		scenSnap(snapSeeds[snapSeedIndex("lagging")], dev+1, false, true, 2),
+		scenSnap(snapSeeds[snapSeedIndex("lagging")], dev, true, false, 1),
+		scenSnap(snapSeeds[snapSeedIndex("full")], dev+1, false, true, 2),
 		scenMember(memberSeeds[0], dev+1, 2, 0, true, nil, 1),
 	} {
 		sc := cloneScenario(b)
